@@ -351,6 +351,28 @@ func (c *ctx) legacy(us []*universe.UStruct) {
 			c.h.opResolve(x)
 		}
 	}
+	// Pretouch every member of the reference graphs (some members are unsupported definitions) and the
+	// invalid group, in a random order, before any of them is used: how each is then treated must be
+	// what it is in a process that never called Pretouch (a warm-up that builds descriptors without
+	// the failed-build rollback would leave half-built ones behind)
+	var gs []*universe.UStruct
+	for i := range universe.Structs {
+		if g := universe.Structs[i].Group; g == "graph" || g == "invalid" {
+			gs = append(gs, &universe.Structs[i])
+		}
+	}
+	c.r.Shuffle(len(gs), func(i, j int) { gs[i], gs[j] = gs[j], gs[i] })
+	for _, x := range gs {
+		safely(func() string {
+			frugal.Pretouch(x.Type)
+			frugal.Pretouch(reflect.PtrTo(x.Type))
+			frugal.Pretouch(reflect.New(x.Type).Interface())
+			return ""
+		})
+	}
+	for _, x := range gs {
+		c.h.opResolve(x)
+	}
 	// ** pointer argument after Pretouch of the same type
 	type S = struct {
 		A int32 `frugal:"1,default,i32"`
